@@ -58,6 +58,10 @@ pub struct GoSpec {
     /// intact `readyok` line, and no other line may be damaged by it)
     #[serde(default)]
     pub pings: u8,
+    /// text sessions only: a command line the GUI sends in the middle of a stop-terminated search
+    /// (`ucinewgame`, `debug on|off`): whatever the engine does with it, the output of the running search stays coherent
+    #[serde(default)]
+    pub midsearch_line: Option<String>,
 }
 
 impl GoSpec {
